@@ -209,75 +209,75 @@ func (c *Ctx) ReconcilerShape(ob *core.Obligation, r *Roles) {
 	if r == nil {
 		return
 	}
-	var fn *ssa.Function
-	for _, g := range c.P.ModuleFunctions() {
-		if relOfFn(g) == "internal/interpreter" && returnsPostings(g) && buildsPostings(g, r) {
-			fn = g
-		}
-	}
+	fn := c.reconciler(r)
 	if fn == nil {
 		ob.Unknown("anchor:reconciler", "-", "no function building postings found")
 		return
 	}
-	c.Touch(fn)
+	region := c.reconcilerRegion(r)
 	revS, revR := 0, 0
 	popS, popR := map[string]bool{}, map[string]bool{}
-	for _, ci := range core.Calls(fn) {
-		call := ci.Common()
-		obj := core.CalleeObj(call)
-		if obj == nil {
-			continue
-		}
-		if obj.Name() == "Reverse" && len(call.Args) == 1 {
-			switch elemTypeName(call.Args[0].Type()) {
-			case "Sender":
-				revS++
-			case "Receiver":
-				revR++
+	for _, g := range region {
+		c.Touch(g)
+		for _, ci := range core.Calls(g) {
+			call := ci.Common()
+			obj := core.CalleeObj(call)
+			if obj == nil {
+				continue
 			}
-		}
-		if sc := call.StaticCallee(); sc != nil && c.P.InModule(sc) && len(call.Args) == 1 {
-			if p, ok := call.Args[0].Type().Underlying().(*types.Pointer); ok {
-				switch elemTypeName(p.Elem()) {
+			if obj.Name() == "Reverse" && len(call.Args) == 1 {
+				switch elemTypeName(call.Args[0].Type()) {
 				case "Sender":
-					n := sc.Name()
-					if o := sc.Origin(); o != nil {
-						n = o.Name()
-					}
-					popS[n] = true
+					revS++
 				case "Receiver":
-					n := sc.Name()
-					if o := sc.Origin(); o != nil {
-						n = o.Name()
+					revR++
+				}
+			}
+			if sc := call.StaticCallee(); sc != nil && c.P.InModule(sc) && len(call.Args) == 1 {
+				if p, ok := call.Args[0].Type().Underlying().(*types.Pointer); ok {
+					switch elemTypeName(p.Elem()) {
+					case "Sender":
+						n := sc.Name()
+						if o := sc.Origin(); o != nil {
+							n = o.Name()
+						}
+						popS[n] = true
+					case "Receiver":
+						n := sc.Name()
+						if o := sc.Origin(); o != nil {
+							n = o.Name()
+						}
+						popR[n] = true
 					}
-					popR[n] = true
 				}
 			}
 		}
 	}
 	// lists popped in line: an element read at len-1 (or at 0) of a pending list
-	for _, b := range fn.Blocks {
-		for _, in := range b.Instrs {
-			ia, ok := in.(*ssa.IndexAddr)
-			if !ok {
-				continue
-			}
-			en := elemTypeName(ia.X.Type())
-			if en != "Sender" && en != "Receiver" {
-				continue
-			}
-			end := "other"
-			t, off := core.Linear(ia.Index)
-			switch {
-			case t == "len("+core.Canon(ia.X)+")" && off == -1:
-				end = "inline:last"
-			case t == "0" && off == 0:
-				end = "inline:first"
-			}
-			if en == "Sender" {
-				popS[end] = true
-			} else {
-				popR[end] = true
+	for _, g := range region {
+		for _, b := range g.Blocks {
+			for _, in := range b.Instrs {
+				ia, ok := in.(*ssa.IndexAddr)
+				if !ok {
+					continue
+				}
+				en := elemTypeName(ia.X.Type())
+				if en != "Sender" && en != "Receiver" {
+					continue
+				}
+				end := "other"
+				t, off := core.Linear(ia.Index)
+				switch {
+				case t == "len("+core.Canon(ia.X)+")" && off == -1:
+					end = "inline:last"
+				case t == "0" && off == 0:
+					end = "inline:first"
+				}
+				if en == "Sender" {
+					popS[end] = true
+				} else {
+					popR[end] = true
+				}
 			}
 		}
 	}
@@ -293,9 +293,47 @@ func (c *Ctx) ReconcilerShape(ob *core.Obligation, r *Roles) {
 	} else {
 		ob.Fail(key, c.P.Pos(fn.Pos()), "senders and receivers are not consumed from the same end (reversed a different number of times, or popped differently): first-come-first-served pairing is broken")
 	}
-	// merge under equality of both names
+	// merge under equality of both names; the merge may live in a helper that is handed the
+	// two names: its parameters then stand for what every call passes
+	for _, g := range append([]*ssa.Function{fn}, c.postingBuilders(r)...) {
+		c.mergeUnderNameEquality(ob, g, r)
+	}
+}
+
+func (c *Ctx) mergeUnderNameEquality(ob *core.Obligation, fn *ssa.Function, r *Roles) {
+	fieldOfVal := func(v ssa.Value) *types.Var {
+		if p, ok := core.Strip(v).(*ssa.Parameter); ok && p.Parent() == fn {
+			as, ok := c.argSites(fn, p)
+			if !ok {
+				return nil
+			}
+			var f *types.Var
+			for i, a := range as {
+				g := postingFieldOf(a.Arg)
+				if g == nil || (i > 0 && g != f) {
+					return nil
+				}
+				f = g
+			}
+			return f
+		}
+		return postingFieldOf(v)
+	}
+	nameEq := func(l core.Lit, postF, nameF *types.Var) bool {
+		bo, ok := l.Cond.(*ssa.BinOp)
+		if !ok || (bo.Op != token.EQL && bo.Op != token.NEQ) {
+			return false
+		}
+		fx, fy := fieldOfVal(bo.X), fieldOfVal(bo.Y)
+		// the same field of two different postings: the one built from the pair at hand (whose
+		// names PostingShape traces to the sender and the receiver) and the previous one
+		twoPostings := fx == postF && fy == postF && core.Canon(bo.X) != core.Canon(bo.Y)
+		if !((fx == postF && fy == nameF) || (fx == nameF && fy == postF) || twoPostings) {
+			return false
+		}
+		return (bo.Op == token.EQL) == l.Val
+	}
 	pc := core.NewPathConds(fn)
-	n := 0
 	for _, b := range fn.Blocks {
 		for _, in := range b.Instrs {
 			call, ok := in.(*ssa.Call)
@@ -310,7 +348,7 @@ func (c *Ctx) ReconcilerShape(ob *core.Obligation, r *Roles) {
 			if postingFieldOf(recv) != r.PostAmt {
 				continue
 			}
-			n++
+			c.Touch(fn)
 			srcEq := pc.Requires(b, func(l core.Lit) bool { return nameEq(l, r.PostSrc, r.SenderName) })
 			dstEq := pc.Requires(b, func(l core.Lit) bool { return nameEq(l, r.PostDst, r.ReceiverName) })
 			// the posting merged into is selected through a pointer variable (nil = no merge): the
